@@ -210,6 +210,14 @@ impl ExecProp for C14 {
                 }
             }
         }
+        // a fragment entry point with dual source blending: two results at @location(0)
+        if ch.chance(1, 8) {
+            let v4 = Ty::V(4, Sc::F32);
+            let mk = |n: &str| Member { name: n.to_string(), ty: v4.clone(), size_attr: None, align_attr: None, io: Io::Loc { loc: 0, flat: false } };
+            sh.structs.push(StructDef { name: format!("DualSrcOut{}", sh.structs.len()), members: vec![mk("dual_c0"), mk("dual_c1")] });
+            let st = sh.structs.len() - 1;
+            sh.entries.push(Entry { stage: Stage::Fragment, name: format!("fs_dual_{}", sh.entries.len()), params: vec![], result: EResult::Struct(st), wg: vec![], body: vec![] });
+        }
         let wgsl = render(&sh);
         let opts = expect::plain_opts(&sh)?;
         Some(Built { sh, wgsl, include_path: None, opts, extra: Value::Null, files: vec![] })
